@@ -21,6 +21,9 @@ fn main() {
         ("drive", "range") => props::range::drive(&args),
         ("replay", "cfb") => isolate::run_replay(&args, props::cfb::replay),
         ("drive", "cfb") => isolate::run_drive(&args, props::cfb::drive),
+        ("replay", "biffcells") => isolate::run_replay(&args, props::biff::replay_cells),
+        ("replay", "rk") => props::biff::replay_rk(&args),
+        ("drive", "biffcells") => isolate::run_drive(&args, props::biff::drive_cells),
         _ => {
             eprintln!("unknown command {} {}", args.cmd, args.sub);
             2
